@@ -107,6 +107,10 @@ Definition call_builtin (name:list N) (ps:list value) : bres :=
     match ps with
     | [VBool b] => BOk (VNum (ftrunc (of_bool b))) | [VStr s] => match parse_f64 s with Some f => BOk (VNum (ftrunc f)) | None => BErr CustomError end
     | [VNum f] => BOk (VNum (ftrunc f)) | [_] => ty | _ => cnt 1%N end
+  (* if_then (called as a function: eager; the short-circuit form is the optimizer's rewrite) *) else if is [105;102;95;116;104;101;110] then
+    match ps with
+    | VBool c :: first :: rest => BOk (if c then first else match rest with e :: _ => e | [] => empty_of first end)
+    | [_; _] => ty | _ => cnt 2%N end
   (* insert *) else if is [105;110;115;101;114;116] then
     match ps with
     | [VStr t; VStr s; VNum i] => match get_string_index i with inr e => BErr e | inl k => if (Z.of_nat (length t) <? k)%Z then BErr (IndexOutOfBounds (Z.to_N k)) else BOk (VStr (firstn (Z.to_nat k) t ++ s ++ skipn (Z.to_nat k) t)) end
